@@ -15,7 +15,8 @@ META = {
         'implies). A mistake made consistently on both sides changes both extracted layouts and disagrees with the table. '
         'R2 compares the numeric registries (content/handshake/alert types, SSL 2.0 codes, extension numbers the registries '
         'are keyed on, SCSV code points) with the RFC/IANA numbers. R3 demands an entry for every wire structure of the TLS '
-        'modules. R4 checks the SSL 2.0 two-byte record header.'),
+        'modules. R4 checks the SSL 2.0 two-byte record header.'
+        ' R4 is decided by tabulation of the extracted header arithmetic over every value of the first header byte (both header forms) and of the composer\'s header over body lengths.'),
     'assumptions': ['sa/specs/tls.json was transcribed by hand from RFC 5246/8446/6066/7301/7627/7685/8449/8472/8879/6962/5746/5077/4492 and '
                     'draft-hickman-netscape-ssl-00 without network access; an error there shows up as a disagreement with both sides',
                     'value conversions (IDNA names, Random.time, certificate contents) are not decided'],
